@@ -10,6 +10,16 @@
 (* grid, volume, lifetime, cancels of own resting orders), the replay      *)
 (* compares books, series rows and holdings after every step.              *)
 (*                                                                         *)
+(* One TradingHaltRule (constant HaltRule, events/trading_halt_rule.py)     *)
+(* is part of the composition: after a round with fills on a target market *)
+(* that is running, a price that left the band around the time-0 price     *)
+(* stops that market, records (session, time) and switches the SESSION's   *)
+(* matching off (exOn); before every step the record of a market whose     *)
+(* halt is over is dropped and - if it was made in the current session -   *)
+(* the market runs again, and matching is switched on again once every     *)
+(* market runs.  A record cut short by the end of its session stays behind *)
+(* and is dropped without effect when it runs out.                         *)
+(*                                                                         *)
 (* Agent operations:  <<"none">>                                           *)
 (*                    <<"order", m, isBuy, isMarketOrder, price, vol, ttl>>*)
 (*                    <<"cancel", m, id>>   (an own order resting on m)    *)
@@ -21,13 +31,19 @@ CONSTANTS NN, NH,      \* normal agents 1..NN, HFT agents NN+1..NN+NH
           Sess,        \* sequence of [steps, place, exec, maxN, maxH, rate]
           Den, P0,     \* units per tick, initial price (units)
           Prices, Vols, TTLs,
-          MaxOrders    \* bound on accepted orders per market (state-space bound only)
+          MaxOrders,   \* bound on accepted orders per market (state-space bound only)
+          HaltRule     \* [on, targets (subset of Mk), num, den (trigger rate num/den), len (halting time length)]
 
 VARIABLES phase, s, k, tickTodo,
           remN, nN, coll, todo, inH, remH, nH, handled,
           mk, led, nfills, fillSess,
+          exOn,      \* the current session's with_order_execution (a halt switches it off, the resume on)
+          hrec,      \* TradingHaltRule.halting_markets: market -> [sess, at] (NoRec: none)
+          hcnt,      \* TradingHaltRule.activation_count
+          raisedEver,\* a matching round was started on a market that is not running while it had executable orders
           act        \* the action that produced this state, with its arguments (read by the replay)
-vars == <<phase, s, k, tickTodo, remN, nN, coll, todo, inH, remH, nH, handled, mk, led, nfills, fillSess, act>>
+vars == <<phase, s, k, tickTodo, remN, nN, coll, todo, inH, remH, nH, handled, mk, led, nfills, fillSess, exOn, hrec, hcnt, raisedEver, act>>
+NoRec == [sess |-> 0, at |-> -1]
 
 Normal == 1..NN
 HFT == (NN + 1)..(NN + NH)
@@ -59,15 +75,37 @@ ApplyFill1(L, f) ==
         + (IF j = m + 1 THEN (IF a = ba THEN vol ELSE 0) - (IF a = sa THEN vol ELSE 0) ELSE 0)]]
 ApplyAll(L, fills) == FoldLeft(LAMBDA acc, f : ApplyFill1(acc, f), L, fills)
 
+\* TradingHaltRule.hooked_after_execution: |p0 - price| >= p0 * rate * (activations + 1), p0 = get_market_price(0)
+HaltHit(m1, cnt) ==
+  LET p0 == IF m1.clock = 0 THEN m1.row.mkt ELSE m1.hist[1].mkt
+      d == IF p0 > m1.row.mkt THEN p0 - m1.row.mkt ELSE m1.row.mkt - p0 IN
+  d * HaltRule.den >= p0 * HaltRule.num * (cnt + 1)
+
 Accept(a, op) ==
   LET m == op[2]
       m1 == IF op[1] = "order" THEN MAccept(mk[m], a, op[3], op[4], op[5], op[6], op[7]) ELSE MCancel(mk[m], op[3])
-      r == IF S.exec THEN MRound(m1) ELSE [m |-> m1, px |-> NoPx, pend |-> <<>>, raised |-> FALSE]
-      fills == FillsOf(m1.live, m, r, m1.clock) IN
-  /\ mk' = [mk EXCEPT ![m] = r.m]
+      r == IF exOn THEN MRound(m1) ELSE [m |-> m1, px |-> NoPx, pend |-> <<>>, raised |-> FALSE]
+      fills == FillsOf(m1.live, m, r, m1.clock)
+      halt == HaltRule.on /\ Len(fills) > 0 /\ m \in HaltRule.targets /\ r.m.running /\ HaltHit(r.m, hcnt) IN
+  /\ mk' = [mk EXCEPT ![m] = IF halt THEN MSetRunning(r.m, FALSE) ELSE r.m]
+  /\ hrec' = IF halt THEN [hrec EXCEPT ![m] = [sess |-> s, at |-> r.m.clock]] ELSE hrec
+  /\ hcnt' = IF halt THEN hcnt + 1 ELSE hcnt
+  /\ exOn' = IF halt THEN FALSE ELSE exOn
+  /\ raisedEver' = (raisedEver \/ r.raised)
   /\ led' = ApplyAll(led, fills)
   /\ nfills' = nfills + Len(fills)
   /\ fillSess' = IF Len(fills) > 0 THEN fillSess \cup {s} ELSE fillSess
+
+\* TradingHaltRule.hooked_before_step_for_market for the markets m..NM in turn: <<markets, records, session switch>>
+RECURSIVE ResumeFold(_, _, _, _)
+ResumeFold(m, M, H, ex) ==
+  IF m > NM THEN <<M, H, ex>>
+  ELSE IF ~HaltRule.on \/ m \notin HaltRule.targets \/ H[m] = NoRec \/ M[m].clock <= H[m].at + HaltRule.len
+       THEN ResumeFold(m + 1, M, H, ex)
+       ELSE LET H2 == [H EXCEPT ![m] = NoRec] IN
+            IF H[m].sess # s THEN ResumeFold(m + 1, M, H2, ex)        \* halted in an earlier session: dropped, no effect
+            ELSE LET M2 == [M EXCEPT ![m] = MSetRunning(@, TRUE)] IN
+                 ResumeFold(m + 1, M2, H2, IF \A x \in Mk : M2[x].running THEN TRUE ELSE ex)
 
 \* ------------------------------------------------------------------ the run
 Init ==
@@ -76,16 +114,17 @@ Init ==
   /\ mk = [m \in Mk |-> MNew(Den, P0)]
   /\ led = [a \in Agents |-> <<Cash0>> \o [m \in Mk |-> Shares0]]
   /\ nfills = 0 /\ fillSess = {} /\ act = <<"Init">>
+  /\ exOn = FALSE /\ hrec = [m \in Mk |-> NoRec] /\ hcnt = 0 /\ raisedEver = FALSE
 
 SchedVars == <<remN, nN, coll, todo, inH, remH, nH, handled>>
-MarketVars == <<mk, led, nfills, fillSess>>
+MarketVars == <<mk, led, nfills, fillSess, exOn, hrec, hcnt, raisedEver>>
 
 TickMarket(m) ==      \* Market._update_time: the clock, expiry, carry-forward of the series
   /\ act' = <<"TickMarket", m>>
   /\ phase = "tick" /\ m \in tickTodo
   /\ mk' = [mk EXCEPT ![m] = MTick(mk[m], P0)]
   /\ tickTodo' = tickTodo \ {m}
-  /\ UNCHANGED <<phase, s, k, SchedVars, led, nfills, fillSess>>
+  /\ UNCHANGED <<phase, s, k, SchedVars, led, nfills, fillSess, exOn, hrec, hcnt, raisedEver>>
 
 TickDone ==
   /\ act' = <<"TickDone">>
@@ -97,16 +136,18 @@ SessionBegin ==       \* every market follows the session's execution switch
   /\ act' = <<"SessionBegin">>
   /\ phase = "sessbegin"
   /\ mk' = [m \in Mk |-> MSetRunning(mk[m], S.exec)]
+  /\ exOn' = S.exec
   /\ phase' = (IF S.steps > 0 THEN "stepbegin" ELSE "sessend")
   /\ k' = 0
-  /\ UNCHANGED <<s, tickTodo, SchedVars, led, nfills, fillSess>>
+  /\ UNCHANGED <<s, tickTodo, SchedVars, led, nfills, fillSess, hrec, hcnt, raisedEver>>
 
 StepBegin ==
   /\ act' = <<"StepBegin">>
   /\ phase = "stepbegin"
   /\ phase' = IF S.place THEN "collect" ELSE "stepend"
   /\ remN' = Normal /\ nN' = 0 /\ coll' = <<>> /\ handled' = 0
-  /\ UNCHANGED <<s, k, tickTodo, todo, inH, remH, nH, MarketVars>>
+  /\ LET r == ResumeFold(1, mk, hrec, exOn) IN mk' = r[1] /\ hrec' = r[2] /\ exOn' = r[3]
+  /\ UNCHANGED <<s, k, tickTodo, todo, inH, remH, nH, led, nfills, fillSess, hcnt, raisedEver>>
 
 Consult(a, op) ==
   /\ act' = <<"Consult", a, op>>
@@ -180,9 +221,23 @@ BooksOk == \A m \in Mk : MatchProps(mk[m].live)
 Lifetimes == \A m \in Mk : \A o \in mk[m].live : o.ttl # 0 => mk[m].clock <= o.t0 + o.ttl
 \* C09 / C16: no fill in a session configured without execution; markets run exactly in execution sessions
 NoFillWithoutExec == \A x \in fillSess : Sess[x].exec
-RunningFollowsSession == (phase \in {"stepbegin", "collect", "handle", "stepend"}) => \A m \in Mk : mk[m].running = S.exec
+InStep == phase \in {"collect", "handle", "stepend"}
+Halted(m) == hrec[m] # NoRec /\ hrec[m].sess = s /\ mk[m].clock <= hrec[m].at + HaltRule.len
+RunningFollowsSession == (phase \in {"stepbegin", "collect", "handle", "stepend"}) =>
+                            \A m \in Mk : (~S.exec => ~mk[m].running) /\ (~HaltRule.on => mk[m].running = S.exec)
+\* C16: a market stopped by the rule stays stopped for the configured further steps and runs again at the step after;
+\* nothing else stops a market in an execution session; while a market is stopped nothing is matched anywhere in the session
+HaltedStaysStopped == InStep => \A m \in Mk : Halted(m) => ~mk[m].running
+ResumedOnTime == (InStep /\ S.exec) => \A m \in Mk : ~mk[m].running => Halted(m)
+SwitchFollowsHalts == (InStep /\ S.exec) => (exOn <=> \A m \in Mk : mk[m].running)
+NeverRaisedInRun == ~raisedEver
+\* reachability probes (expected to be VIOLATED where the configuration has a rule: vacuity control of the clauses above)
+ProbeNoHaltEver == hcnt = 0
+ProbeNoStaleRecord == \A m \in Mk : hrec[m] = NoRec \/ hrec[m].sess = s
+ProbeNoResume == ~(\E m \in Mk : hcnt > 0 /\ hrec[m] = NoRec /\ mk[m].running /\ InStep /\ exOn)
+OnlyTargetsHalt == \A m \in Mk : hrec[m] # NoRec => (HaltRule.on /\ m \in HaltRule.targets)
 \* C09: a round follows every acceptance in an execution session: the touched market is left uncrossed
-RoundFollows == [][S.exec => \A m \in Mk : (mk'[m].live # mk[m].live /\ phase = "handle") => C03ok(mk'[m].live)]_vars
+RoundFollows == [][exOn => \A m \in Mk : (mk'[m].live # mk[m].live /\ phase = "handle") => C03ok(mk'[m].live)]_vars
 \* C06: one clock
 LockStep == phase # "tick" => \A m1, m2 \in Mk : mk[m1].clock = mk[m2].clock
 HistLen == \A m \in Mk : Len(mk[m].hist) = (IF mk[m].clock < 0 THEN 0 ELSE mk[m].clock)
